@@ -194,7 +194,9 @@ def run(ctx):
     timing["tlc"] = round(time.time() - t0, 1)
     ctx.cov["grid"] = {"bytes": n_grid, "max_shared_blocks": maxb, "cases": len(grid), "page_scaled_cases": len(paged)}
     ctx.cov["random_cases"] = {"small": n_rand_small, "page_scale": n_rand_page}
-    ctx.cov["exhaustive"] = True   # the grid (all layouts x offsets x sizes at that scope) is enumerated completely
+    ctx.cov["exhaustive"] = True
+    ctx.cov["exhaustive_scope"] = ("complete for the byte grid (every layout with <= %d shared blocks on %d bytes, plain buffers, every "
+                                   "offset and size, both buffers); the page-scaled and random cases are samples" % (maxb, n_grid))
 
     # ---------------- replay into the implementation
     ids = list(enumerate(cases))
